@@ -93,6 +93,8 @@ func (ex *Exec) resolveType(s string, pkg string) types.Type {
 		}
 	}
 	switch s {
+	case "unsafe.Pointer":
+		return types.Typ[types.UnsafePointer]
 	case "byte":
 		return types.Typ[types.Uint8]
 	case "rune":
@@ -225,6 +227,11 @@ func (ex *Exec) evalSpec(e *SExpr, env *SpecEnv) (Val, types.Type) {
 			}
 		}
 		if e.Op == "forall" {
+			if len(bvs) == 1 && bvs[0].sort == BV(64) {
+				if nv, nb, pats := reindexQuant(bvs[0], body); nb != nil {
+					return Forall([]*Term{nv}, nb, pats...), types.Typ[types.Bool]
+				}
+			}
 			return Forall(bvs, body), types.Typ[types.Bool]
 		}
 		return Exists(bvs, body), types.Typ[types.Bool]
@@ -449,6 +456,9 @@ func (env *SpecEnv) stateOf(sv *SliceV) *State {
 func (ex *Exec) evalIndex(e *SExpr, env *SpecEnv) (Val, types.Type) {
 	v, t := ex.evalSpec(e.Args[0], env)
 	iv, it := ex.evalSpec(e.Args[1], env)
+	if sq, ok := v.(*SeqV); ok {
+		return Select(sq.A, BVOp("bvadd", sq.Off, ex.toIdx(iv, it))), types.Typ[types.Uint8]
+	}
 	switch u := under(t).(type) {
 	case *types.Slice:
 		sv := v.(*SliceV)
@@ -757,6 +767,28 @@ func (ex *Exec) evalCall(e *SExpr, env *SpecEnv) (Val, types.Type) {
 		case "arr":
 			a, _ := ex.evalSpec(args[0], env)
 			return a.(*SliceV).Arr, types.Typ[types.UnsafePointer]
+		case "addr":
+			// addr(pkg.Var) / addr(Var): address of a package-level variable
+			name, pkg := "", env.pkg
+			switch args[0].Op {
+			case "ident":
+				name = args[0].Name
+			case "sel":
+				name, pkg = args[0].Name, args[0].Args[0].Name
+			}
+			if tp := ex.P.findPkg(pkg); tp != nil {
+				if v, ok := tp.Scope().Lookup(name).(*types.Var); ok {
+					if sp := ex.P.prog.Package(v.Pkg()); sp != nil {
+						if g, ok := sp.Members[name].(*ssa.Global); ok {
+							if aggregate(v.Type()) {
+								return Var(ex.globalPtr(g).name+"$obj", SRef), types.NewPointer(v.Type())
+							}
+							return ex.globalPtr(g), types.NewPointer(v.Type())
+						}
+					}
+				}
+			}
+			specFail("addr: unknown package variable %s", args[0].String())
 		case "off":
 			a, _ := ex.evalSpec(args[0], env)
 			return a.(*SliceV).Off, intT
@@ -939,4 +971,82 @@ func refOf(v Val) *Term {
 		return x.Arr
 	}
 	return flat(v)[0]
+}
+
+// reindexQuant rewrites `forall k :: ... A[base+k] ...` into `forall j :: ... A[j] ...` (k := j - base)
+// so that the quantifier has a trigger without arithmetic: select(A, j). Memory arrays are
+// preferred over ghost streams as the trigger.
+func reindexQuant(k *Term, body *Term) (*Term, *Term, []*Term) {
+	type cand struct {
+		arr, base *Term
+		ghost     bool
+	}
+	var cands []cand
+	seen := map[int]bool{}
+	var walk func(t *Term)
+	walk = func(t *Term) {
+		if seen[t.id] || !t.bound {
+			return
+		}
+		seen[t.id] = true
+		if t.op == "select" && !t.args[0].bound {
+			idx := t.args[1]
+			var base *Term
+			if b, ok := linMinus(idx, k); ok && !b.bound {
+				base = b
+			}
+			if base != nil {
+				g := false
+				r := t.args[0]
+				for r.op == "select" || r.op == "store" {
+					r = r.args[0]
+				}
+				if (r.op == "app" && strings.HasPrefix(r.name, "ghost$")) || r == STR {
+					g = true
+				}
+				cands = append(cands, cand{t.args[0], base, g})
+			}
+		}
+		for _, a := range t.args {
+			walk(a)
+		}
+	}
+	walk(body)
+	if len(cands) == 0 {
+		return nil, nil, nil
+	}
+	best := cands[0]
+	for _, c := range cands {
+		if best.ghost && !c.ghost {
+			best = c
+		}
+	}
+	j := Bound("j", BV(64))
+	nb := Subst(body, map[int]*Term{k.id: BVOp("bvsub", j, best.base)})
+	pat := Select(best.arr, j)
+	if !containsTerm(nb, pat) {
+		return nil, nil, nil
+	}
+	return j, nb, []*Term{pat}
+}
+
+func containsTerm(t, x *Term) bool {
+	seen := map[int]bool{}
+	var walk func(t *Term) bool
+	walk = func(t *Term) bool {
+		if t == x {
+			return true
+		}
+		if seen[t.id] {
+			return false
+		}
+		seen[t.id] = true
+		for _, a := range t.args {
+			if walk(a) {
+				return true
+			}
+		}
+		return false
+	}
+	return walk(t)
 }
